@@ -367,3 +367,19 @@ def complete_view(V, name=None):
     I["forbidGiven"] = True
     I["mntCostGiven"] = True
     return I
+
+
+def decoupled(I):
+    """Input-domain predicate of C14: depot totals do not couple the vehicle types (one type, or for
+    every given depot the per-type capacities are explicit and sum to at most the total)."""
+    if len(I["types"]) == 1 or not I["depotsGiven"]:
+        return True
+    for d in I["depots"]:
+        caps = [a["cap"] for a in d["allowed"]]
+        if any(c == -1 for c in caps):
+            if len(caps) > 1:
+                return False
+            continue
+        if sum(min(c, d["cap"]) for c in caps) > d["cap"]:
+            return False
+    return True
